@@ -345,16 +345,24 @@ class Schema(dict, metaclass=LogicalMeta):
             # need to update the dependant properties
             self.__update_dependants__(field, context=context)
 
-    def __update_dependants__(self, field: ParserField, context: RuntimeContext, updated: set = None):
-        # a dependant property may itself be a dependency of further properties
-        updated = set() if updated is None else updated
-        for dep in field.dependants:
-            dep_field = self.__parser__.get_field(dep)
-            if dep_field and dep_field.property and dep not in updated:
-                updated.add(dep)
-                self.__coerce_property__(dep_field, context=context)
-                if dep_field.dependants:
-                    self.__update_dependants__(dep_field, context=context, updated=updated)
+    def __update_dependants__(self, field: ParserField, context: RuntimeContext):
+        # a dependant property may itself be a dependency of further properties: collect them all,
+        # then recompute each one after the properties it depends on
+        pending = {}
+        queue = [field]
+        while queue:
+            for dep in queue.pop().dependants:
+                dep_field = self.__parser__.get_field(dep)
+                if dep_field and dep_field.property and dep not in pending:
+                    pending[dep] = dep_field
+                    queue.append(dep_field)
+        while pending:
+            ready = [
+                name for name, f in pending.items()
+                if not any(d in pending for d in (f.dependencies or ()) if d != name)
+            ] or list(pending)[:1]      # (a cyclic declaration: take them as they come)
+            for name in ready:
+                self.__coerce_property__(pending.pop(name), context=context)
 
     def __setitem__(self, alias: str, value):
         if self.__options__.immutable:
